@@ -14,6 +14,9 @@ func runC20(c *Ctx, tier string) {
 	c.Rule("C20-O1", "spilling keeps input order: stash writes the already buffered values (in slice order) to the spill file before the current one, and nothing is buffered in memory once a spill file exists")
 	c.Rule("C20-R1", "the second pass shapes every value to the fused type with Cast|Fill|Order, the type being uberSchema.Type()")
 	runMergeSetOnlyFromSets(c, "C20-M2")
+	runMergeIdempotent(c, "C20-M3")
+	runShaperCacheKey(c, "C20-R2")
+	runFuseConsumesEveryType(c, "C20-A1")
 	wr := p.Func("(*runtime/sam/op/fuse.Fuser).Write")
 	st := p.Func("(*runtime/sam/op/fuse.Fuser).stash")
 	rd := p.Func("(*runtime/sam/op/fuse.Fuser).Read")
